@@ -42,6 +42,8 @@ CLAIMS = {
          "Tie/oracle: perturbed Root fields, loader kind/store, byte-level damage of the top node judged by an independent decoder.", "5 C19"),
 }
 CLAIMS.update({
+ "C11": ("Theorems over the history model: a call that uses only its owner's trees/cursors/captured roots computes the same result, trace and new owned state in any two worlds that agree on the owner's possessions (whatever stores and other trees contain) and changes nothing it does not own; hence for any number of owners and EVERY interleaving of their calls (incl. persists into shared stores) each owner observes exactly what it observes running alone. "
+         "Partial: the Go memory model is outside the value model - data-race freedom on shared cached nodes is decided by the -race engine (owners' histories in parallel goroutines over a shared frozen cache/store under the race detector, each compared with its solo run); LoadMast during the concurrent phase and the ARC cache are outside the theorems.", "5 C11"),
  "C07": ("Theorems (generic in key/value types): for any two trees with consistently named hash links (any contents, heights, residency mix, nil old tree) the diff succeeds and every name reported as added is reached by the new version, every name the new version reaches is reported as added or reached by the old version, symmetrically for removed; hence (C07_replica_sync) a store holding the old version plus the added nodes holds the whole new version (sto, from which LoadMast succeeds by Reload.load_canon). "
          "Partial: 'each name at most once' (the alreadyNotified memo) not proved yet; decided by correspondence + reachable-set oracle, which also loads the new root from a store holding only old + added nodes. Hypotheses as for C06.", "5 C07"),
  "C06": ("Theorems (generic in key/value types): Mast.diff on any two reachable trees (any contents incl. empty/emptied or a nil old tree, any heights, any residency mix, related or unrelated) terminates within its own step budget and its entry events are exactly the merge-difference of the two sorted listings; that merge-difference reports, for every key, exactly the event the two maps call for (added / removed / changed with old and new values, nothing on agreement), in strictly ascending key order hence once each; a stored name denotes one node (sto_fun) so skipping equal links is sound. "
@@ -52,7 +54,6 @@ CLAIMS.update({
          "Partial: the shrinking Delete and cursor steps are bounded by the oracle only. Tie: the implementation's loads per call must not exceed the model's (one-sided, caches off) and the per-operation oracle bounds on recorded Load calls.", "5 C16"),
 })
 PENDING = {
- "C11": "model-level race-freedom theorems still being written; the -race engine and alone-vs-together comparison exist and run clean",
 }
 def main():
     ids = [json.loads(l)["id"] for l in open(os.path.join(ROOT, "properties.jsonl"))]
